@@ -218,7 +218,9 @@ fn case(srv: &mut Srv, seed: u64, res: &mut CaseResult) -> R<()> {
             for s in stops {
                 let age_ms = end.timestamp().saturating_sub(s.id.timestamp());
                 let restarted = mine.iter().any(|f| f.topic.ends_with(".start") && f.id > s.id);
-                if !restarted && age_ms > 4000 {
+                // progress witness: some other generator did get restarted after this stop
+                let others_progress = log.iter().any(|f| f.topic.ends_with(".start") && f.id > s.id && meta_str(f, "source_id") != Some(&sid));
+                if !restarted && age_ms > 8000 && others_progress {
                     res.find(&["C18"], "not-started-again-after-stop", json!({"case": d, "stop": s, "waited_ms": age_ms}));
                 }
             }
